@@ -29,7 +29,8 @@ Meaning (all frozen, hashable, comparable by ==)::
     ("union", frozenset{meanings})      flattened, None included as ("none",), all literal members merged into ONE "lit"
                                         element, never nested, never of size 1 (a one-element union IS its element)
     ("gen", canonical origin name, (argument meanings...))               typing alias and class share the canonical name,
-                                                                         bare generics get their implicit parameters
+                                                                         bare generics get their implicit parameters;
+                                                                         Type[Union[A, B]] is the union of Type[A], Type[B]
     ("tup", (meanings...))  ("vtup", meaning)                            bare tuple = tuple[Any, ...]
     ("ann", meaning, (meta,))
 """
@@ -380,7 +381,11 @@ def _meaning(spec):  # noqa: C901, PLR0911
         return _mk_union([meaning(spec[1]), ("none",)])
     if k == "G":
         args = spec[3] if spec[3] is not None else implicit_args(spec[1])
-        return ("gen", spec[1], tuple(meaning(a) for a in args))
+        arg_meanings = tuple(meaning(a) for a in args)
+        if spec[1] == "type" and arg_meanings[0][0] == "union":
+            # PEP 484 "The type of class objects": Type[Union[A, B]] accepts exactly the classes Type[A] or Type[B] accept
+            return _mk_union(("gen", "type", (alt,)) for alt in arg_meanings[0][1])
+        return ("gen", spec[1], arg_meanings)
     if k == "Tup":
         if spec[2] == "bare":
             return ("vtup", ("any",))
@@ -406,10 +411,13 @@ def _alternatives_multiset(spec):
         return [("none",) if t == "None" else ("litval", _token_meaning(t)) for t in spec[1]]
     if k == "L" and spec[1] == "None":
         return [("none",)]
-    m = meaning(spec)
-    if m[0] == "union":    # e.g. a bare generic is never a union; Annotated[Union] is an atom ("ann", ...)
-        raise AssertionError(spec)
-    return [m]
+    out = []
+    for alt in _atoms(meaning(spec)):      # a union only for Type[Union[..]], which distributes
+        if alt[0] == "lit":
+            out += [("litval", v) for v in alt[1]]
+        else:
+            out.append(alt)
+    return out
 
 
 def duplicate_free(spec):
